@@ -486,7 +486,7 @@ fn repetition_cycle(t: &Tables, b0: &BoardState, rng: &mut StdRng) -> Option<Vec
     None
 }
 
-pub fn scenarios(t: &Tables, seeds: &[String], seed: u64, n_small: usize, n_mate: usize, n_rep: usize, n_game: usize) -> Value {
+pub fn scenarios(t: &Tables, seeds: &[String], seed: u64, n_small: usize, n_mate: usize, n_rep: usize, n_game: usize, n_term: usize) -> Value {
     let mut rng = StdRng::seed_from_u64(seed);
     let mut out: Vec<Value> = Vec::new();
     let kits: [(&[u32], &[u32]); 8] = [(&[6, 5], &[6]), (&[6, 4], &[6]), (&[6, 4, 4], &[6]), (&[6, 5], &[6, 4]), (&[6, 4, 1], &[6, 1]),
@@ -559,6 +559,26 @@ pub fn scenarios(t: &Tables, seeds: &[String], seed: u64, n_small: usize, n_mate
             let keep = if rng.gen_bool(0.3) { 3 } else { 7 }; // 3 plies: a second occurrence only (count 1) as a control
             out.push(json!({"tag": "rep", "cmd": format!("position fen {} moves {}", to_fen(&b0, 0, 1), cyc[..keep].join(" "))}));
             count += 1;
+        }
+    }
+    // finished games: checkmates and stalemates (random endgames without a legal move, plus games played out)
+    count = 0;
+    tries = 0;
+    for fixed in ["position startpos moves f2f3 e7e5 g2g4 d8h4", "position fen 7k/5Q2/6K1/8/8/8/8/8 b - - 0 1", "position fen k7/2Q5/1K6/8/8/8/8/8 b - - 0 1",
+                  "position fen 6k1/5ppp/8/8/8/8/8/R3K3 w Q - 0 1 moves a1a8", "position fen 8/8/8/8/8/5k2/5p2/5K2 w - - 0 1"] {
+        if count < n_term {
+            out.push(json!({"tag": "terminal", "cmd": fixed}));
+            count += 1;
+        }
+    }
+    while count < n_term && tries < 2000000 {
+        tries += 1;
+        let (s, w) = kits[rng.gen_range(0..kits.len())];
+        if let Some(b) = random_endgame(t, &mut rng, s, w) {
+            if generate_moves(&b, MoveGenerationMode::AllMoves, &t.hasher).is_empty() {
+                out.push(json!({"tag": "terminal", "cmd": format!("position fen {}", to_fen(&b, 0, 1))}));
+                count += 1;
+            }
         }
     }
     // game positions with their real history
